@@ -72,6 +72,7 @@ type Contract struct {
 	Persistent bool    // the call changes persistent state (a crash point follows it)
 	Crash     []Clause // crash invariants: must hold after every persistent call made by this function
 	Atomic2   []string // "atomic mu": all critical sections of lock mu in this function form one atomic step
+	Regions   bool     // verify with heap arrays split by allocation time (see FV.side)
 	Holds     []string // lock fields of the receiver the caller holds ("holds mu" / "holds mu:r")
 	Unshared  bool     // object under construction: lockset checks off
 	EnsuresRecovered []Clause // must hold at exits reached through a recovered panic
@@ -437,6 +438,8 @@ func (db *SpecDB) LoadFile(path, pkgPath string) error {
 			cur.Persistent = true
 		case "crash":
 			cur.Crash = append(cur.Crash, Clause{Kind: word, Text: rest, File: path, Line: ln, Name: label})
+		case "regions":
+			cur.Regions = true
 		case "holds":
 			cur.Holds = append(cur.Holds, strings.Fields(rest)...)
 		case "unshared":
